@@ -10,7 +10,7 @@
 From Coq Require Import ZArith Reals Psatz Floats.
 From Flocq Require Import Core BinarySingleNaN.
 From Flocq Require IEEE754.PrimFloat.
-From Sup Require Import Stats.
+From Sup Require Import Stats StatsProofs.
 
 Module FP := Flocq.IEEE754.PrimFloat.
 
@@ -402,9 +402,7 @@ Proof.
 Qed.
 
 (* ------------------------------------------------------------------ cpu_in_range at the level of the model *)
-(* The model follows /repo through the one-line switch Stats.cpu_pct.  While it is cpu_pct_current the
-   hypothesis below is FALSE (see StatsProofs.cpu_in_range_refuted) and this statement is vacuous; once the
-   fix is committed and the switch turned, the hypothesis is `eq_refl`. *)
+(* The model follows /repo through the one-line switch Stats.cpu_pct. *)
 Theorem cpu_statistics_in_range_if_fixed : cpu_pct = cpu_pct_fixed ->
   forall latest ref, cpu_values_ok false (cpu_statistics latest ref) latest ref = true.
 Proof.
@@ -412,4 +410,28 @@ Proof.
   induction latest as [|l ls IH]; intros ref; destruct ref as [|r rs]; simpl; try reflexivity.
   rewrite IH. destruct (counters_ok l r) eqn:Ec; [|reflexivity].
   rewrite (cpu_in_range_fixed l r Ec). reflexivity.
+Qed.
+
+(* since the fix of F25 the switch is turned: unconditional for the model.
+   (`eq_refl` stops type-checking if the model is switched back to cpu_pct_current.) *)
+Theorem cpu_statistics_in_range :
+  forall latest ref, cpu_values_ok false (cpu_statistics latest ref) latest ref = true.
+Proof. exact (cpu_statistics_in_range_if_fixed eq_refl). Qed.
+
+Theorem cpu_one_in_range : forall latest ref,
+  counters_ok latest ref = true -> cpu_in_range (cpu_one latest ref) = true.
+Proof. exact cpu_in_range_fixed. Qed.
+
+(* every CPU value of every point produced by an instance *)
+Theorem host_point_cpu_in_range : forall h s h' r upt cpu mem net disk usage,
+  h_ref h = Some r ->
+  host_push h s = (h', HPoint (upt, cpu, mem, net, disk, usage)) ->
+  cpu_values_ok false cpu (s_cpu s) (s_cpu r) = true.
+Proof.
+  intros h s h' r upt cpu mem net disk usage Hr H. unfold host_push in H. rewrite Hr in H.
+  destruct (gate _ _ _); [|inversion H].
+  destruct (host_integrate h r s) as [[[[[[upt' cpu'] mem'] net'] disk'] usage']|] eqn:Ei; [|inversion H].
+  assert (E : cpu' = cpu).
+  { destruct (Z.ltb (h_depth h) 0); [inversion H|]. destruct (snd (push_cpu _ _ _)); inversion H; reflexivity. }
+  subst cpu'. apply StatsProofs.host_integrate_cpu in Ei. subst cpu. apply cpu_statistics_in_range.
 Qed.
